@@ -210,6 +210,86 @@ Fixpoint deep_copy (src : jv) : jv :=
 Definition deep_copy_root (src : jv) : option jv :=
   match src with JNull => None | _ => Some (deep_copy src) end.
 
+(* ------------------------------------------------------------------ deep copy with a caller-supplied json_c_shallow_copy_fn *)
+(* json_object_deep_copy(src, &dst, fn): the library calls fn(src, parent, key_in_parent,
+   index_in_parent, &dst) once per non-null node, parent before children, children in order.
+   A well-behaved fn creates the node as json_c_shallow_copy_default does and answers
+     1  "created; serializer data left to the library"  -> the library finishes the node with
+        json_object_copy_serializer_data AFTER its members / elements have been copied,
+     2  "created; I have set serializer / userdata myself" (it has carried the retained text
+        over itself) -> the library only skips json_object_copy_serializer_data,
+    -1  failure -> the whole deep copy fails at once.
+   What fn answers is not the library's business: it is an ORACLE here, an arbitrary function
+   of the history of calls made so far and of the arguments of the present call.  A second
+   oracle says which source nodes carry application userdata (with a serializer the library
+   does not know): for such a node answer 1 makes json_object_copy_serializer_data, hence the
+   deep copy, fail. *)
+Inductive cb_ans := CbCreated | CbComplete | CbError.
+Record cb_call := mk_call { c_src : jv; c_parent : option jv; c_key : option (list byte); c_idx : option Z; c_depth : Z }.
+Record cb_env := mk_env { cb_answer : list cb_call -> cb_call -> cb_ans;      (* history: most recent call first *)
+                          cb_tagged : list cb_call -> cb_call -> bool }.
+
+Section ThreadOpt.   (* children in order with a threaded state, stopping at the first failure *)
+  Context {A B S : Type} (f : Z -> A -> S -> option B * S).
+  Fixpoint thread_opt (i : Z) (l : list A) (s : S) : option (list B) * S :=
+    match l with
+    | [] => (Some [], s)
+    | x :: t => match f i x s with
+                | (Some x', s1) => match thread_opt (i + 1) t s1 with
+                                   | (Some t', s2) => (Some (x' :: t'), s2)
+                                   | (None, s2) => (None, s2)
+                                   end
+                | (None, s1) => (None, s1)
+                end
+    end.
+End ThreadOpt.
+
+(* json_object_deep_copy_recursive with the callback; result None = -1 *)
+Fixpoint deep_copy_cb (env : cb_env) (src : jv) (parent : option jv) (key : option (list byte)) (idx : option Z)
+                      (depth : Z) (h : list cb_call) {struct src} : option jv * list cb_call :=
+  match src with
+  | JNull => (Some JNull, h)            (* a NULL member / element is copied as NULL, fn is not called *)
+  | _ =>
+    let call := mk_call src parent key idx depth in
+    let h1 := call :: h in
+    match cb_answer env h call with
+    | CbError => (None, h1)             (* shallow_copy_rc < 1 *)
+    | ans =>
+      (* the end of the function: if (shallow_copy_rc != 2) return json_object_copy_serializer_data(src, *dst) *)
+      let finish (d : jv) (h2 : list cb_call) : option jv * list cb_call :=
+        match ans with
+        | CbComplete => (Some d, h2)
+        | _ => if cb_tagged env h call then (None, h2) else (Some (copy_serializer_data src d), h2)
+        end in
+      match src with
+      | JArr l =>
+          match thread_opt (fun i x s => deep_copy_cb env x (Some src) None (Some i) (depth + 1) s) 0 l h1 with
+          | (Some l', h2) => finish (JArr (fold_left (fun dst x => dst ++ [x]) l' [])) h2        (* array_add *)
+          | (None, h2) => (None, h2)
+          end
+      | JObj l =>
+          match thread_opt (fun _ kv s => match deep_copy_cb env (snd kv) (Some src) (Some (fst kv)) None (depth + 1) s with
+                                          | (Some x', s') => (Some (fst kv, x'), s')
+                                          | (None, s') => (None, s')
+                                          end) 0 l h1 with
+          | (Some l', h2) => finish (JObj (fold_left (fun dst kv => obj_add dst (fst kv) (snd kv)) l' [])) h2   (* object_add *)
+          | (None, h2) => (None, h2)
+          end
+      | _ => finish (match ans with
+                     | CbComplete => copy_serializer_data src (shallow_copy src)    (* fn carried the text itself *)
+                     | _ => shallow_copy src
+                     end) h1
+      end
+    end
+  end.
+
+(* json_object_deep_copy(src, &dst, fn): a NULL source is refused without any call *)
+Definition deep_copy_cb_root (env : cb_env) (src : jv) : option jv * list cb_call :=
+  match src with JNull => (None, []) | _ => deep_copy_cb env src None None None 0 [] end.
+
+(* the default: json_c_shallow_copy_default always answers 1, no application userdata *)
+Definition cb_default : cb_env := mk_env (fun _ _ => CbCreated) (fun _ _ => false).
+
 (* ------------------------------------------------------------------ mutation probes *)
 (* the public mutators the drivers apply somewhere inside a tree *)
 Inductive step := SIdx (i : Z) | SKey (k : list byte).
